@@ -75,6 +75,31 @@ claim("C15",
       "symmetry of the neighbour relation as a theorem; equality of grid and graph trajectories",
       "DESIGN.md section 6 C15")
 
+claim("C05",
+      "Abstract interpretation of all 113 (operator method x operand type) cases of UnitValue / UnitArray with symbolic "
+      "unit systems and dimension vectors: on every returning path the number is computed in the system it is wrapped "
+      "with, operands of + - % and comparisons are converted to one system and checked for equal dimension, results of "
+      "* / ** and invert carry the sum / difference / multiple / negation of the dimension vectors; constructed "
+      "exceptions are raised, never returned; element-wise array-array code is dominated by the length test; "
+      "Units.multiply / invert / raiseto / __eq__ act component-wise with the right operator, the system guard "
+      "dominates multiply, non-integral resulting exponents raise.",
+      "static analysis: unit-tag abstract interpretation (TAG: symbolic system + affine dimension vector, path facts "
+      "from dimension tests), must-fact dataflow for the length guard, syntactic raise discipline",
+      "value-level operand order / sign of reflected operators; floating-point exactness; parsing of unit strings (C18)",
+      "DESIGN.md section 6 C05")
+
+claim("C16",
+      "A value of the coarse-graining map is used as a subscript only where it is known != -1 (12 sites, must-facts); "
+      "the validity check dominates every use of the map; aggregation reads state[s*size + i] and writes "
+      "cg[s*cgsize + map[i]] with the coarse space built from this map; flags are the clamped sums; output edges are "
+      "appended only under i != j, both != -1 and not-yet-present, together with their key, and existing edges "
+      "accumulate the face; un-coarse-graining divides a group's value by that group's size into "
+      "[sample][species][member cell].",
+      "static analysis: must-fact dataflow over the Python ast (dominating guards), polynomial normal form of the "
+      "aggregation subscripts, structural pairing checks",
+      "conservation totals, centroid distances, identity-map equivalence (value-level)",
+      "DESIGN.md section 6 C16")
+
 NOT_YET = {}
 
 def main():
